@@ -23,7 +23,7 @@ PID = "CRULES13"
 THMS = "C13rules"
 MODEL = "rules13"
 BIG = 10 ** 9
-OVERLAP_MAX = 8000
+OVERLAP_MAX = 3000
 
 RULES = [
     (13, "FieldsOnCorrectTypeRule"), (14, "ScalarLeafsRule"), (15, "KnownArgumentNamesRule"),
@@ -307,7 +307,8 @@ def core(ck, tier, model_ok, budget_s=None):
         r5 = iter(safe_batch(ck, m, [[5] + h + head + it[4] for h, it, ok in zip(hdr, items, small) if ok],
                              [it[0] for it, ok in zip(items, small) if ok], sdl))
         o5 = [next(r5) if ok else None for ok in small]
-        c14outs = c14_verdicts(schema, [it[3] for it in items])
+        r14 = iter(c14_verdicts(schema, [it[3] for it, ok in zip(items, small) if ok]))
+        c14outs = [next(r14) if ok else None for ok in small]
         for (text, opname, label, doc, w), a0, a1, a2, a5, c14v in zip(items, o0, o1, o2, o5, c14outs):
             judge(ck, schema, sdl, classes, text, opname, label, doc, a0, a1, a2, a5, c14v)
     ck.count("rules13_schemas", nschemas)
